@@ -87,3 +87,179 @@ pub fn cfgs(tree: FileTree, rt: &Runtime<NoCtx>) -> Result<Cfgs, RotoReport> {
         pipeline,
     })
 }
+
+// ---------------------------------------------------------------------------
+// Stage pairs (C01, LIR layer): every function as the MIR the pipeline hands
+// to the LIR lowerer and as the LIR that lowerer produces, in one vocabulary
+// (variables by identifier and scope number / temporaries by index, blocks by
+// label index, one instruction per line). Anything outside the scalar
+// vocabulary is the line `other …`.
+
+/// One function in two consecutive stages.
+#[derive(Clone, Debug)]
+pub struct StagePair {
+    /// fully resolved name
+    pub name: String,
+    /// `mir::Item::tmp_idx`: the first temporary the LIR lowerer may allocate
+    pub mir_tmp_idx: usize,
+    /// the MIR parameters, in order
+    pub mir_params: Vec<String>,
+    /// MIR blocks: label index and instruction lines
+    pub mir: Vec<(usize, Vec<String>)>,
+    /// LIR variable table: name and `IrType` (`slot` for a stack slot)
+    pub lir_vars: Vec<(String, String)>,
+    /// does the LIR function return a value in a register?
+    pub lir_returns_value: bool,
+    /// LIR blocks: label index and instruction lines
+    pub lir: Vec<(usize, Vec<String>)>,
+}
+
+fn sp_scope(s: &crate::typechecker::scope::ScopeRef) -> String {
+    format!("{s:?}").chars().filter(|c| c.is_ascii_digit()).collect()
+}
+
+fn sp_mvar(v: &mir::Var) -> String {
+    match &v.kind {
+        mir::VarKind::Explicit(id) => format!("e{id}.{}", sp_scope(&v.scope)),
+        mir::VarKind::Tmp(i) => format!("t{i}"),
+    }
+}
+
+fn sp_lvar(v: &crate::lir::Var) -> String {
+    match &v.kind {
+        crate::lir::VarKind::Explicit(id) => format!("e{id}.{}", sp_scope(&v.scope)),
+        crate::lir::VarKind::Tmp(i) => format!("t{i}"),
+        crate::lir::VarKind::Return => "$ret".to_string(),
+        crate::lir::VarKind::Context => "$ctx".to_string(),
+    }
+}
+
+fn sp_place(p: &mir::Place) -> Option<String> {
+    if p.projection.is_empty() { Some(sp_mvar(&p.var)) } else { None }
+}
+
+fn sp_mir_ins(i: &mir::Instruction) -> String {
+    use crate::ast::Literal;
+    match i {
+        mir::Instruction::Jump(l) => format!("j {}", l.verif_index()),
+        mir::Instruction::Switch { examinee, branches, default } => format!(
+            "s {} {} {}",
+            sp_mvar(examinee),
+            if branches.is_empty() { "-".to_string() } else {
+                branches.iter().map(|(k, l)| format!("{k}:{}", l.verif_index())).collect::<Vec<_>>().join(",")
+            },
+            default.map(|l| l.verif_index().to_string()).unwrap_or_else(|| "-".to_string())
+        ),
+        mir::Instruction::Return { var } => format!("r {}", sp_mvar(var)),
+        mir::Instruction::Drop { val, .. } => match sp_place(val) {
+            Some(p) => format!("d {p}"),
+            None => "other drop".to_string(),
+        },
+        mir::Instruction::SetDiscriminant { .. } => "other setdisc".to_string(),
+        mir::Instruction::Assign { to, value, .. } => {
+            let Some(to) = sp_place(to) else { return "other assign-projection".to_string() };
+            let v = match value {
+                mir::Value::Const(Literal::Integer(i, _), _) => format!("const int {i}"),
+                mir::Value::Const(Literal::Bool(b), _) => format!("const bool {}", if *b { 1 } else { 0 }),
+                mir::Value::Const(Literal::Unit, _) => "const unit".to_string(),
+                mir::Value::Clone(p) => match sp_place(p) {
+                    Some(p) => format!("clone {p}"),
+                    None => return "other clone-projection".to_string(),
+                },
+                mir::Value::Move(x) => format!("move {}", sp_mvar(x)),
+                mir::Value::Not(x) => format!("not {}", sp_mvar(x)),
+                mir::Value::Negate(x, _) => format!("neg {}", sp_mvar(x)),
+                mir::Value::BinOp { left, binop, right, .. } => {
+                    format!("binop {} {binop:?} {}", sp_mvar(left), sp_mvar(right))
+                }
+                mir::Value::Call { func, args, .. } => format!(
+                    "call {}{}",
+                    func.ident,
+                    args.iter().map(|a| format!(" {}", sp_mvar(a))).collect::<String>()
+                ),
+                _ => return "other value".to_string(),
+            };
+            format!("a {to} {v}")
+        }
+    }
+}
+
+fn sp_op(o: &crate::lir::Operand) -> String {
+    match o {
+        crate::lir::Operand::Place(v) => sp_lvar(v),
+        crate::lir::Operand::Value(v) => format!("#{v:?}").replace(' ', ""),
+    }
+}
+
+fn sp_lir_ins(i: &crate::lir::Instruction) -> String {
+    use crate::lir::Instruction as I;
+    match i {
+        I::Jump(l) => format!("j {}", l.verif_index()),
+        I::Switch { examinee, branches, default } => format!(
+            "s {} {} {}",
+            sp_op(examinee),
+            if branches.is_empty() { "-".to_string() } else {
+                branches.iter().map(|(k, l)| format!("{k}:{}", l.verif_index())).collect::<Vec<_>>().join(",")
+            },
+            default.verif_index()
+        ),
+        I::Assign { to, val, ty } => format!("a {} {} {ty:?}", sp_lvar(to), sp_op(val)),
+        I::Return(None) => "r -".to_string(),
+        I::Return(Some(o)) => format!("r {}", sp_op(o)),
+        I::IntCmp { to, cmp, left, right } => format!("intcmp {} {cmp:?} {} {}", sp_lvar(to), sp_op(left), sp_op(right)),
+        I::Add { to, left, right } => format!("add {} {} {}", sp_lvar(to), sp_op(left), sp_op(right)),
+        I::Sub { to, left, right } => format!("sub {} {} {}", sp_lvar(to), sp_op(left), sp_op(right)),
+        I::Mul { to, left, right } => format!("mul {} {} {}", sp_lvar(to), sp_op(left), sp_op(right)),
+        I::Not { to, val } => format!("not {} {}", sp_lvar(to), sp_op(val)),
+        I::Negate { to, val } => format!("neg {} {}", sp_lvar(to), sp_op(val)),
+        I::Call { to, ctx, func, args, return_ptr } => format!(
+            "call {} {} {} {}{}",
+            to.as_ref().map(|(v, t)| format!("{}:{t:?}", sp_lvar(v))).unwrap_or_else(|| "-".to_string()),
+            ctx.as_ref().map(sp_op).unwrap_or_else(|| "-".to_string()),
+            return_ptr.as_ref().map(sp_lvar).unwrap_or_else(|| "-".to_string()),
+            func,
+            args.iter().map(|a| format!(" {}", sp_op(a))).collect::<String>()
+        ),
+        other => format!("other {}", format!("{other:?}").split([' ', '(', '{']).next().unwrap_or("")),
+    }
+}
+
+pub(crate) fn stage_pairs_of(mir: &mir::Mir, lir: &crate::lir::Lir) -> Vec<StagePair> {
+    mir.items
+        .iter()
+        .filter_map(|m| {
+            let l = lir.functions.iter().find(|l| l.name == m.name)?;
+            let lir_returns_value = match &l.kind {
+                crate::lir::ItemKind::Function { ir_signature, .. } => ir_signature.return_type.is_some(),
+                _ => false,
+            };
+            Some(StagePair {
+                name: m.name.to_string(),
+                mir_tmp_idx: m.tmp_idx,
+                mir_params: match &m.ty {
+                    mir::ItemKind::Function { parameters, .. } => parameters.iter().map(sp_mvar).collect(),
+                    _ => Vec::new(),
+                },
+                mir: m.blocks.iter().map(|b| (b.label.verif_index(), b.instructions.iter().map(sp_mir_ins).collect())).collect(),
+                lir_vars: l
+                    .variables
+                    .iter()
+                    .map(|(v, t)| {
+                        (sp_lvar(v), match t {
+                            crate::lir::ValueOrSlot::Val(ty) => format!("{ty:?}"),
+                            crate::lir::ValueOrSlot::StackSlot(_) => "slot".to_string(),
+                        })
+                    })
+                    .collect(),
+                lir_returns_value,
+                lir: l.blocks.iter().map(|b| (b.label.verif_index(), b.instructions.iter().map(sp_lir_ins).collect())).collect(),
+            })
+        })
+        .collect()
+}
+
+/// Parse, type check, lower to MIR and on to LIR; report every function in both stages.
+pub fn stage_pairs(tree: FileTree, rt: &Runtime<NoCtx>) -> Result<Vec<StagePair>, RotoReport> {
+    let checked = tree.parse()?.typecheck(rt)?;
+    Ok(checked.lower_to_mir().verif_c01_stage_pairs())
+}
